@@ -550,3 +550,19 @@ Example C16_race_handlers_exactly_once_nonvacuous :
   exists m, rrun (rinit (insts race_state) (restart_prog race_old race_cfg race_state)) race_sched = Some m
             /\ NoDup (ids (insts race_state)) /\ r_once m = true /\ length (r_iters m) = 2.
 Proof. eexists. split; [vm_compute; reflexivity|]. split; [vm_compute; repeat constructor; simpl; tauto|]. split; reflexivity. Qed.
+
+Theorem C16_race_shutdown_at_most_once_partial :
+  forall (l : list inst) (p : list ract) (cs : list rchoice) (m : rst),
+    NoDup (ids l) -> rrun (rinit l p) cs = Some m ->
+    NoDup (ids (r_iters m)) /\
+    forall e, count_ev e (ftrace m) <=
+              count_ev e ((if r_once m then [EHook HShutdown 0] else []) ++ all_shutdown (r_iters m))
+              + count_ev e (prog_events p).
+Proof. exact race_whole_trace_bound. Qed.
+Print Assumptions C16_race_shutdown_at_most_once_partial.
+
+Example C16_race_shutdown_at_most_once_partial_nonvacuous :
+  exists m, rrun (rinit (insts race_state) (restart_prog race_old race_cfg race_state)) race_sched = Some m
+            /\ NoDup (ids (insts race_state)) /\ count_ev (ECb KFinal 0 0) (ftrace m) = 0
+            /\ count_ev (ECb KShutdown 1 0) (ftrace m) = 1.
+Proof. eexists. split; [vm_compute; reflexivity|]. split; [vm_compute; repeat constructor; simpl; tauto|]. split; reflexivity. Qed.
